@@ -260,6 +260,36 @@ static int dispatch(void) {
 	if (!strcmp(c0, "sigfree")) { int i = atoi(tok[1]); KSI_Signature_free(sigs[i]); sigs[i] = NULL; return 0; }
 	if (!strcmp(c0, "sigser")) { unsigned char *raw = NULL; size_t n = 0; int rc = KSI_Signature_serialize(sigs[atoi(tok[1])], &raw, &n); if (rc == KSI_OK) kx_outhex("hex", raw, n); KSI_free(raw); return rc; }
 	if (!strcmp(c0, "sigclone")) { int d = atoi(tok[2]); KSI_Signature *s = NULL; int rc = KSI_Signature_clone(sigs[atoi(tok[1])], &s); KSI_Signature_free(sigs[d]); sigs[d] = s; return rc; }
+	if (!strcmp(c0, "sigprepend")) {
+		/* sigprepend <c> <src> <dst> <alg> <input-imprint-hex> <lvl> <links: L|R:<imprint-hex>:<corr>,...>  - derive a signature by prepending a local aggregation chain */
+		KSI_CTX *c = ctxs[atoi(tok[1])]; KSI_Signature *src = sigs[atoi(tok[2])], *out = NULL; int d = atoi(tok[3]);
+		KSI_SignatureBuilder *b = NULL; KSI_AggregationHashChain *ch = NULL; KSI_HashChainLinkList *ll = NULL; KSI_DataHash *in = NULL; KSI_Integer *alg = NULL;
+		size_t n; unsigned char *raw; char *p, *save = NULL; int rc;
+		rc = KSI_AggregationHashChain_new(c, &ch); if (rc) goto pp_done;
+		raw = kx_hexarg(tok[5], &n); rc = KSI_DataHash_fromImprint(c, raw, n, &in); vh_exact_free(raw, n); if (rc) goto pp_done;
+		rc = KSI_AggregationHashChain_setInputHash(ch, in); if (rc) goto pp_done; in = NULL;
+		rc = KSI_Integer_new(c, (KSI_uint64_t)atoi(tok[4]), &alg); if (rc) goto pp_done;
+		rc = KSI_AggregationHashChain_setAggrHashId(ch, alg); if (rc) goto pp_done; alg = NULL;
+		rc = KSI_HashChainLinkList_new(&ll); if (rc) goto pp_done;
+		for (p = strtok_r(tok[7], ",", &save); p; p = strtok_r(NULL, ",", &save)) {
+			KSI_HashChainLink *l = NULL; KSI_DataHash *sh = NULL; KSI_Integer *corr = NULL; char *h = p + 2, *cc = strchr(h, ':'); unsigned long long cv = 0;
+			if (cc) { *cc = 0; cv = strtoull(cc + 1, NULL, 10); }
+			rc = KSI_HashChainLink_new(c, &l); if (rc) goto pp_done;
+			rc = KSI_HashChainLink_setIsLeft(l, p[0] == 'L'); if (rc) { KSI_HashChainLink_free(l); goto pp_done; }
+			raw = kx_hexarg(h, &n); rc = KSI_DataHash_fromImprint(c, raw, n, &sh); vh_exact_free(raw, n); if (rc) { KSI_HashChainLink_free(l); goto pp_done; }
+			rc = KSI_HashChainLink_setImprint(l, sh); if (rc) { KSI_DataHash_free(sh); KSI_HashChainLink_free(l); goto pp_done; }
+			if (cv) { rc = KSI_Integer_new(c, cv, &corr); if (rc) { KSI_HashChainLink_free(l); goto pp_done; } rc = KSI_HashChainLink_setLevelCorrection(l, corr); if (rc) { KSI_Integer_free(corr); KSI_HashChainLink_free(l); goto pp_done; } }
+			rc = KSI_HashChainLinkList_append(ll, l); if (rc) { KSI_HashChainLink_free(l); goto pp_done; }
+		}
+		rc = KSI_AggregationHashChain_setChain(ch, ll); if (rc) goto pp_done; ll = NULL;
+		rc = KSI_SignatureBuilder_openFromSignature(src, &b); if (rc) goto pp_done;
+		rc = KSI_SignatureBuilder_setAggregationChainStartLevel(b, (KSI_uint64_t)atoi(tok[6])); if (rc) goto pp_done;
+		rc = KSI_SignatureBuilder_createSignatureWithAggregationChain(b, ch, &out);
+		if (rc == KSI_OK) { KSI_Signature_free(sigs[d]); sigs[d] = out; out = NULL; out_sig_bytes("sig", sigs[d]); }
+pp_done:
+		KSI_Signature_free(out); KSI_SignatureBuilder_free(b); KSI_AggregationHashChain_free(ch); KSI_HashChainLinkList_free(ll); KSI_DataHash_free(in); KSI_Integer_free(alg);
+		return rc;
+	}
 	if (!strcmp(c0, "siginfo")) {
 		KSI_Signature *s = sigs[atoi(tok[1])]; KSI_DataHash *h = NULL; KSI_Integer *t = NULL; const unsigned char *imp; size_t il; int rc;
 		rc = KSI_Signature_getDocumentHash(s, &h); if (rc == KSI_OK && h) { KSI_DataHash_getImprint(h, &imp, &il); kx_outhex("doc", imp, il); } else kx_out(" doc=ERR%d", rc);
